@@ -76,7 +76,15 @@ DTYPES = {8: np.uint8, 16: np.uint16, 32: np.uint32, 64: np.uint64}
 def mk_handler(h: dict) -> EdgeCaseHandler:
     """handler JSON (the format sent to the driver) -> real EdgeCaseHandler"""
     tbl = {}
+    sparse = h.get("form") == "sparse" or (h.get("form") is None and sum(map(ord, repr(h["table"]))) % 3 == 0)
     for m, z in h["table"]:
+        if sparse:
+            # the same handling written the short way: a default result plus only the scenarios that differ from it
+            vals = [z["NO_INSTANCES"], z["EMPTY_PRED"], z["EMPTY_REF"], z["NORMAL"]]
+            dflt = max(sorted(set(vals)), key=vals.count)
+            kw = {k: EDGE[v] for k, v in zip(("no_instances_result", "empty_prediction_result", "empty_reference_result", "normal"), vals) if v != dflt}
+            tbl[METRICS[m]] = MetricZeroTPEdgeCaseHandling(default_result=EDGE[dflt], **kw)
+            continue
         tbl[METRICS[m]] = MetricZeroTPEdgeCaseHandling(
             no_instances_result=EDGE[z["NO_INSTANCES"]], empty_prediction_result=EDGE[z["EMPTY_PRED"]],
             empty_reference_result=EDGE[z["EMPTY_REF"]], normal=EDGE[z["NORMAL"]])
